@@ -9,8 +9,25 @@ CONFIG = dict(
              'commits (thorough: 5), lin = linear, dag = random DAGs up to 14 commits with 2-3 parent merges, several roots, equal and '
              'non-monotone committer times, hist = histories of harness/synth.GenHist, octo = harness/synth.GenOctopusShape: 1-2 octopus merges of '
              '3..7 parents per history (half of the cases aimed at parents = distance+3 / +4, where ONE boot action covers several branches), arms of '
-             'different lengths, chains after the merge, 1..3 roots, distance 1..4, at least one hibernateable item. Non-trivial = at least 2 items and at least 2 commit '
-             'steps in the executed plan; distinct = distinct (distance, items, injection, commits).',
+             'different lengths, chains after the merge, 1..3 roots, distance 1..4, at least one hibernateable item. '
+             'Added after the seeded change C14-s3 (declared outputs cached per item NAME) was missed - input attributes of the pipelines: '
+             'same = 2-3 items of one pipeline share their Name() (resolve() numbers them Name_1, Name_2) while their Provides()/Requires() are '
+             'equal, different, overlapping or nested (pair, refiner, disjoint, first-declares-more, three of a name, two interleaved names, whole '
+             'pipeline under one name, random aliasing), mostly with a probe leaf that requires every entity, missing-output injections aimed at the '
+             'last item of a name; attr = pipelines of 1..12 items providing 0..4 entities, requiring nothing / everything, one re-provider with '
+             'consumers before and after it (TreeDiff -> RenameAnalysis shape), undeclared extra keys colliding with commit, index, is_merge, with an '
+             'entity of another item or echoing an input, or no undeclared key at all, a nil result map (injection nil), an error during the replay of '
+             'a merge commit (injection errm), commit indices biased to the first / last, items to the first / last declared, PrintActions on in a '
+             'quarter of the cases (what Run prints must be the executed prefix of the dumped plan); histories: one commit, linear, random DAG, octopus. '
+             'scale-* = the scale family (harness/cmd/c14/scale.go): histories of 10^3 commits (thorough: 10^4, one of 2^15+1) - linear with ascending / '
+             'descending / equal committer times, 8, 33 (thorough: 200) branches alive at once joined by an octopus or a merge cascade, a side branch '
+             'merged back every p commits (p among 2^k, 2^k+-1, 99..101), a ladder of merges between two long-lived branches, 5 (thorough: 64) roots; '
+             'hibernation distances 0, 1, 2, 10, 99, 100, 101; failures at the last commit index / last item / first merge replay of the second half; '
+             'item lists of 1, 2, 10, 30 items (thorough: 30 items x 3000 commits); linear histories of 98..200 and 127..513 commits (plan positions and '
+             'commit indices around 100, 2^7, 2^8, 2^9). Runs whose plan has more than 450 actions are judged by the extracted oracles only (log_ok over the '
+             'complete call log at the end, summary_ok, errors-abort): the extracted interpreter is cubic in the plan length. '
+             'Non-trivial = at least 2 items and at least 2 commit '
+             'steps in the executed plan; distinct = distinct (distance, items, injection, options, commits).',
         exhaustive_note='every parent assignment (each commit chooses any subset of the earlier ones: several roots, octopus and redundant merges, '
                         'disconnected parts) on 1..4 commits (thorough: 5) x 3 fixed pipelines x 2 hibernation distances',
         assumptions=[
@@ -26,7 +43,9 @@ CONFIG = dict(
         trusted_base=[
             'hand-written Gallina model coq/theories/Pipeline/RunModel.v of Pipeline.Run, cloneItems, mergeItems, getMasterBranch, '
             'ForkSamePipelineItem, ForkCopyPipelineItem, tied to the code by the replay of every harness case (complete call log and result)',
-            'the recording items of harness/cmd/c14 and their Gallina twin rec_sem',
+            'the recording items of harness/cmd/c14 and their Gallina twin rec_sem; the behaviours added with the attribute streams (undeclared '
+            'extra keys, nil result map, error at a merge replay) are an OCaml wrapper around the extracted rec_sem in ocaml/c14/driver.ml (the '
+            'interpreter is the extracted run, the theorems hold for every item behaviour)',
             'verif hook internal/core/verif_c14.go (redirects the sink of the plan dump so that the plan Run executed is observed) and '
             'verifapi/c14/c14.go; the existing verifapi planner exports (InsertHibernateBoot) and Pipeline.VerifItems',
         ],
